@@ -44,6 +44,7 @@ class SimStepLimit(SimDeadlock):
 
 ACTIVE_SIM = None          # the simulator bound by Installed (or None)
 _RealEvent, _RealCondition = threading.Event, threading.Condition
+_RealRLock = threading.RLock
 _RealSemaphore, _RealBoundedSemaphore = threading.Semaphore, threading.BoundedSemaphore
 
 
@@ -444,6 +445,10 @@ class SimPool(mpp.Pool):
             self._sim.logev('close', self._ordinal)
 
     def terminate(self):
+        with self._sim._big_lock:
+            self._terminate()
+
+    def _terminate(self):
         if self._state != TERMINATE:
             self._sim.background('terminate')
             self._state = TERMINATE
@@ -501,6 +506,7 @@ class Sim:
         self.in_worker = 0
         self.worker_daemonic = True
         self.in_step = 0
+        self._big_lock = _RealRLock()     # threads started by the code under test may all drive the loop
         self.log = []
         self.stats = collections.Counter()
         self.seam_hits = 0
@@ -555,6 +561,8 @@ class Sim:
             self.stats['nested_waits'] += 1
         while not until():
             if not self.step():
+                if until():
+                    return          # (another driving thread of the code under test got there first)
                 if deadlock_ok:
                     return
                 self.logev('deadlock', why)
@@ -689,6 +697,10 @@ class Sim:
         return self._pct_prio[a]
 
     def step(self):
+        with self._big_lock:
+            return self._step()
+
+    def _step(self):
         evs = self.enabled_events()
         if not evs:
             return False
